@@ -4,20 +4,77 @@ import json, os
 V = os.path.dirname(os.path.dirname(os.path.abspath(__file__)))
 props = [json.loads(l) for l in open(os.path.join(V, "properties.jsonl"))]
 
+COMMON_NOTE = ("Trusted: own VC generator (pyvc) and its encoding of the Python subset; z3 for unsat; floats as reals; built-in "
+               "models of list/deque/dict; kernel theory K assumed at resumption points (a signal is delivered only while live, to its "
+               "target, at its due time; first activations are signal-less and happen once); rely conditions and kernel facts listed "
+               "in the evidence; cross-component invariant preservation by the frame rule F (DESIGN 12.3); the induction over schedules "
+               "that turns per-segment guarantees into whole-history statements is a paper argument (DESIGN 3.6). ")
+
+def claim(text, note="", design=""):
+    return dict(text=text, note=COMMON_NOTE + note, design=design)
+
 CLAIMS = {
- "C09": dict(
-   text="Every function of Lock (and the Notification/kernel functions it uses) is under a sidecar contract; the "
-        "verifier re-reads /repo's source on every run and discharges, for all states, all numbers of waiters and a "
-        "cancel/interrupt/close injected at the suspension point: FIFO hand-off postconditions, re-entrancy depth "
-        "arithmetic, `available`, the exit-route clauses of __aenter__ (neither owner nor waiter after any abnormal exit), "
-        "and the class invariants (free lock is idle, designated owner has a live wake-up, a live wake-up belongs to the "
-        "owner, waiters distinct and never the owner) at every yield point and exit.",
-   note="Trusted: own VC generator + z3/cvc5; rely conditions on Interrupt fields (owner-stable / monotone) justified by "
-        "scans, not mechanised; kernel delivery facts (signal delivered only while live, to its target, at its due time) "
-        "are the kernel theory K assumed at resumption; requires of __aenter__ that the running activity is not parked / "
-        "designated are kernel facts taken as preconditions. Mutual exclusion over whole histories follows from the "
-        "invariants by the rely/guarantee argument of DESIGN 3.6 (paper).",
-   design="5/C09"),
+ "C01": claim("Contracts on Loop.schedule (exactly one activation queued for the selected date; usage assertions as call-site "
+              "obligations), postpone/suspend (resume in the same step / exactly delay later, private wake-up dead on every exit), "
+              "After/Before/Moment/Instant/Eternity/Delay/Time (exact resume date, same step when the date is reached, no normal "
+              "completion path for dates that cannot hold any more), Scope.do date normalisation.",
+              "Not decided: monotonicity of the clock itself (Loop._run_events / WaitQueue not under contract yet: kernel K1/K3 are "
+              "assumed), float rounding, infinite dates, the start date inside the task wrapper.", "5/C01"),
+ "C03": claim("On every exit path (normal, exception, foreign signal, GeneratorExit) of postpone, suspend, Notification/Condition "
+              "awaits, Lock, Queue, Pipe, Scope and the task wrapper every signal the function created is dead; internal assertions "
+              "(`task is loop.activity`, `err.subject is self`, Done set once, `child.parent is self`) are proved; signals are "
+              "addressed to their owner (invariants on CancelTask, Scope, InterruptScope).",
+              "One internal assertion is assumed, not proved (`assert self._closed` in Queue._await_message). Absence of livelock is "
+              "only covered as 'every loop of a primitive suspends' (suspension counters); Connective waits are not under contract.", "5/C03"),
+ "C04": claim("Scope.__aexit__ on every exit route ends with the scope shut down (not interruptable, own signals dead) and every "
+              "registered child having its final outcome; children are closed non-volatile first; do() on a closed scope raises and "
+              "registers nothing; Task.__close__/payload wrapper: a task closed before its first activation runs no payload code.",
+              "'Final outcome stored' stands for 'done' up to the re-entrant close window (Task.result_without_done_is_closing). "
+              "Descendants are covered by modularity (each nested scope's own contract), not by an explicit induction.", "5/C04"),
+ "C05": claim("_collect_exceptions is proved equal to a recursive spec (first privileged failure, else exactly the non-suppressed "
+              "failures, same objects, once, in order); _propagate_exceptions as a decision table (never an own exception and a "
+              "Concurrent); __child_finished__ records a failure once and schedules the owner's cancel signal in the same segment; "
+              "the wrapper classifies CancelTask / GeneratorExit / other exceptions.",
+              "Verified for Scope's own SUPPRESS/PROMOTE tables (EnvironmentScope excluded); Concurrent.__new__ is an assumed contract.", "5/C05"),
+ "C06": claim("Task.status as a function of (outcome, runner state); cancel(): finished -> nothing, unstarted -> cancelled at once and "
+              "the wrapper's first activation runs no payload code, running -> one live CancelTask queued for this step; __await__ returns "
+              "the stored outcome; invariants: done implies outcome, a started runner's task is not done, cancellations are addressed to "
+              "their subject.", "Write-once of the outcome is a rely condition backed by the guards in cancel/__close__ (scan), not a "
+              "mechanised obligation of the wrapper.", "5/C06"),
+ "C07": claim("InterruptScope.__aenter__ subscribes the scope's interrupt for every kind of notification (virtual dispatch over "
+              "After/Moment/Condition/Delay/Notification); _disable_interrupts leaves both scope signals dead on every path of __aexit__; "
+              "_is_suppressed swallows exactly the scope's own signals; Moment/After subscriptions fire at the date, now if reached, "
+              "never for a past moment.",
+              "Connectives (a & b, a | b) as until-notifications are not under contract (they are never triggered: DESIGN 6/D3); "
+              "run(till=...) itself is not under contract.", "5/C07"),
+ "C08": claim("Condition.__await__ returns only in a segment in which the condition evaluates true and after at least one suspension; "
+              "Condition.__subscribe__ delivers now iff true; invariants 'no waiter parked on a true Flag/InverseFlag/Done'; Flag.set "
+              "puts the new value in force and wakes everybody before it yields.",
+              "Boolean algebra of derived conditions, Tracked comparisons and connective waits are not under contract yet.", "5/C08"),
+ "C09": claim("Every function of Lock under contract: FIFO hand-off, re-entrancy depth arithmetic, `available`, exit routes of "
+              "__aenter__ (neither owner nor waiter after any abnormal exit, ownership passed on), invariants (free lock idle, designated "
+              "owner has a live wake-up, a live wake-up belongs to the owner, waiters distinct and never the owner) at every yield point.",
+              "Preconditions of __aenter__ about the running activity are kernel facts (K10).", "5/C09"),
+ "C10": claim("Queue.put appends at the tail and wakes the oldest receiver before yielding; _await_message hands out exactly the head of "
+              "the buffer as it was at the receiver's last suspension (commit clause) and on cancel/interrupt/close at any suspension "
+              "leaves the buffer untouched and gives the read mutex up; closed+empty raises StreamClosed; receivers are ordered by the "
+              "Lock contracts.", "`assert self._closed` after an empty wake-up is assumed; Queue.__aiter__ is not under contract.", "5/C10"),
+ "C13": claim("Pipe: scale == min(1, throughput / sum of limits) as invariant (dict sum as ghost), every scale change wakes all "
+              "waiting transfers in the same step, a transfer is registered with exactly its own limit while it runs and is removed on "
+              "every exit route; UnboundedPipe.transfer.",
+              "The fluid-model completion time (integral of the rate) is not proved; floats are reals.", "5/C13"),
+ "C14": claim("interval(): every step resumes at previous tick + period, yields the current time, suspends at least once, and raises "
+              "IntervalExceeded exactly when the body was late; delay(): every step pauses exactly period after the body; negative "
+              "periods raise ValueError.", "Float drift is outside (reals).", "5/C14"),
+ "C17": claim("_subclasscheck_specialisation is proved equal to the Match predicate of the property for all tuples and any subclass "
+              "relation; __subclasscheck__/__instancecheck__ dispatch and agree.",
+              "Not under contract: __getitem__/_get_specialisation (cache identity), flattened(), Concurrent.__new__; the `except` clause "
+              "does not consult __subclasscheck__ on this interpreter (measured in setup; DESIGN 6/D8) -- not decided by an obligation.", "5/C17"),
+ "C20": claim("Suspension counters: at least one suspension on every normal-completion path (per step for async generators) of "
+              "postpone, suspend, Notification/Condition/After/Before/Moment/Instant awaits, Flag.set, Task.__await__, Scope.__await__, "
+              "Queue.put/close/_await_message, Pipe.transfer, UnboundedPipe.transfer, interval, delay, Scope._await_children.",
+              "Not covered yet: Tracked.set, Resources, Channel, collect/first, Scope.__aexit__'s normal path as a separate clause; "
+              "K-yield (one suspension lets every runnable activity run) is kernel theory, assumed.", "5/C20"),
 }
 
 checks = []
@@ -35,8 +92,16 @@ for p in props:
             "level_note": c["note"],
             "technique": "contract-based deductive verification: sidecar contracts on the real functions, VCs generated from /repo's AST by symbolic execution, discharged by z3 (cvc5 / z3-4.8 fallback)",
         })
-na = [{"property_id": p["id"], "reason": "contracts for this property's functions are not written yet (engine stage of DESIGN section 10 still under construction); not claimed rather than claimed by another technique"}
-      for p in props if p["id"] not in CLAIMS]
+NA = {
+ "C02": "determinism needs the scans W5/W6 and the WaitQueue refinement K1, which are not built yet; no function-level contract carries it",
+ "C11": "Channel functions are not under contract yet (dict-of-buffers model exists, contracts pending)",
+ "C12": "Resources/Tracked and the exec-generated ResourceLevels operators are not under contract yet",
+ "C15": "Loop.run/_run_events/_run_coroutine and StateHandler.assign are not under contract yet; thread isolation rests on threading.local (assumed) and is outside this family",
+ "C16": "collect/first need `async for` over asyncstdlib.islice (external) and the Scope/Queue contracts composed; not built yet",
+ "C18": "the SimPy compatibility layer (usim.py.events/core) is not under contract yet",
+ "C19": "the SimPy resources (usim.py.resources) are not under contract yet",
+}
+na = [{"property_id": p["id"], "reason": NA.get(p["id"], "not under contract yet")} for p in props if p["id"] not in CLAIMS]
 m = {"version": 1,
      "setup_cmd": "./check --setup",
      "hooks": {"guard": "USIM_VERIF", "enable": "no hooks: proofs read /repo source text, replays import the unmodified package",
